@@ -43,6 +43,7 @@ fn main() {
     if args.is_empty() { eprintln!("usage: replay <scenario> ..."); std::process::exit(2); }
     let r = std::panic::catch_unwind(|| match args[0].as_str() {
         "line" => data::line(&args[1..]),
+        "linety" => data::linety(&args[1..]),
         "list" => data::list(&args[1..]),
         "seq" => data::seq(&args[1..]),
         "typed" => data::typed(&args[1..]),
